@@ -432,11 +432,18 @@ def register(R):
     # ---- start / shutdown happen at most once each: `_started` is owned by `_start_lock` (K2): it is read and written only
     # while holding the lock, and the decision to start (or to shut down) is taken on the value read under the lock -- two
     # threads issuing their first download_file() together must not both start a monitor manager, a submitter and workers
-    R.monitor(PPD, lock='_start_lock', fields=dict(_started=Bool), invariant=lambda v, ref: {}, props=['C19', 'C04'])
+    # (`_transfer_monitor` is written only by `_start_transfer_monitor_manager`, under the lock, and never cleared; download_file reads
+    #  it after `_start_if_needed` without the lock: it is not treated as a guarded field, the invariant relates it to `_started`)
+    R.monitor(PPD, lock='_start_lock', fields=dict(_started=Bool),
+              invariant=lambda v, ref: {'a_started_downloader_has_its_transfer_monitor': z3.Implies(
+                  b2z(v.f(ref, '_started')), z3.Not(is_none(v.f(ref, '_transfer_monitor'))))}, props=['C19', 'C04'])
     PPD_SH = ObjT(PPD, shared=True)
     for q in ('_start_transfer_monitor_manager', '_start_submitter', '_start_get_object_workers'):
-        R.contract(f'{PPD}.{q}', params={}, raise_when={'Exception': lambda c: None},
-                   modifies=lambda c: [('f', c.self, f) for f in ('_manager', '_transfer_monitor', '_submitter', '_workers')])
+        R.contract(f'{PPD}.{q}', params={}, raise_when={'Exception': lambda c: None}, requires_held=('_start_lock',),
+                   # (assumed, thin wrappers around multiprocessing: the first one stores the manager's TransferMonitor proxy)
+                   ensures=(lambda c: {'monitor_proxy_stored': z3.Not(is_none(c.newf('_transfer_monitor')))}) if q == '_start_transfer_monitor_manager' else None,
+                   modifies=(lambda c: [('f', c.self, f) for f in ('_manager', '_transfer_monitor')]) if q == '_start_transfer_monitor_manager'
+                   else (lambda c: [('f', c.self, f) for f in ('_manager', '_submitter', '_workers')]))
 
     def ppd_start_checks(c):
         tr = c.trace
@@ -446,10 +453,13 @@ def register(R):
                 'marked_started_only_after_everything_was_started': b2z(c.newf('_started')) == B(True)}
 
     R.contract(f'{PPD}._start', props=['C19'], params={}, self_type=PPD_SH, checks=ppd_start_checks, requires_held=('_start_lock',),
-               ensures=lambda c: {'started': b2z(c.newf('_started')) == B(True)},
+               ensures=lambda c: {'started': b2z(c.newf('_started')) == B(True),
+                                  'monitor_available': z3.Not(is_none(c.newf('_transfer_monitor')))},
                effects=lambda c, st: st.obj(c.self).fields.__setitem__('_started', True),
                raises={'Exception': lambda c: {'not_marked_started_when_a_start_step_failed': b2z(c.newf('_started')) == b2z(c.oldf('_started'))}},
                raise_when={'Exception': lambda c: None},
+               # (what callers may rely on when _start raises: `_started` is what it was -- the clause above, verified at the root)
+               raise_effects={'Exception': lambda c, st, exc: st.obj(c.self).fields.__setitem__('_started', c.old.f(c.self, '_started'))},
                modifies=lambda c: [('f', c.self, f) for f in ('_manager', '_transfer_monitor', '_submitter', '_workers', '_started')])
 
     def ppd_sin_checks(c):
@@ -459,9 +469,48 @@ def register(R):
             z3.If(was, B(len(st_calls) == 0), B(len(st_calls) == 1)), ['C19', 'C04'])}
 
     R.contract(f'{PPD}._start_if_needed', props=['C19', 'C04'], params={}, self_type=PPD_SH, old_at='acquire',
-               checks=ppd_sin_checks, ensures=lambda c: {'started_afterwards': b2z(c.newf('_started')) == B(True)},
+               checks=ppd_sin_checks, ensures=lambda c: {'started_afterwards': b2z(c.newf('_started')) == B(True),
+                                                         'monitor_available_afterwards': z3.Not(is_none(c.newf('_transfer_monitor')))},
                raises={'Exception': only_propagates}, raise_when={'Exception': lambda c: None},
+               # at call sites (the two ensures above, verified at the root): started, monitor proxy available
+               effects=lambda c, st: (st.obj(c.self).fields.__setitem__('_started', True),
+                                      st.assume(z3.Not(is_none(st.obj(c.self).fields['_transfer_monitor']))), None)[2],
                modifies=lambda c: [('f', c.self, f) for f in ('_manager', '_transfer_monitor', '_submitter', '_workers', '_started')])
+
+    # ---- download_file: the front end.  The downloader is started first; the transfer is registered with the monitor before its
+    # request is queued (the submitter announces job counts for that id); the request and the returned future carry the SAME id
+    R.mark_inline(f'{PPD}._get_transfer_future', f'{PP}:ProcessPoolTransferFuture.__init__', f'{PP}:ProcessPoolTransferMeta.__init__')
+    R.contract(f'{PPD}._validate_all_known_args', params=dict(provided=Any), raise_when={'ValueError': lambda c: None},
+               modifies=lambda c: [])
+
+    def ppd_dl_checks(c):
+        tr = c.trace
+        sin = calls(tr, 'ProcessPoolDownloader._start_if_needed')
+        val = calls(tr, 'ProcessPoolDownloader._validate_all_known_args')
+        nn = mon(tr, 'notify_new_transfer')
+        pu = [e for e in tr if e.kind == 'ext' and e.name == 'mpqueue.put']
+        okorder = len(sin) == 1 and len(val) == 1 and len(nn) == 1 and len(pu) == 1 and \
+            index_of(tr, sin[0]) < index_of(tr, val[0]) < index_of(tr, nn[0]) < index_of(tr, pu[0])
+        out = {'starts_validates_registers_then_queues_exactly_one_request': B(bool(okorder))}
+        if okorder:
+            req = pu[0].args[0]
+            rec = req[1] if isinstance(req, tuple) and req[0] == 'record' else {}
+            ea = rec.get('extra_args')
+            user_ea = c.a_extra_args
+            out['request_goes_to_the_download_request_queue_with_the_users_arguments_and_the_new_id'] = B(bool(
+                pu[0].recv is c.oldf('_download_request_queue') and rec.get('transfer_id') is nn[0].result and rec.get('bucket') is c.a_bucket
+                and rec.get('key') is c.a_key and rec.get('filename') is c.a_filename and rec.get('expected_size') is c.a_expected_size))
+            fut = c.result
+            okf = isinstance(fut, Ref) and c.new.obj(fut).cls.name == 'ProcessPoolTransferFuture'
+            if okf:
+                meta = c.new.obj(c.new.obj(fut).fields['_meta'])
+                okf = meta.fields.get('_transfer_id') is nn[0].result and c.new.obj(fut).fields['_monitor'] is c.newf('_transfer_monitor')
+            out['the_returned_future_polls_the_monitor_for_the_same_id'] = B(bool(okf))
+        return out
+
+    R.contract(f'{PPD}.download_file', props=['C19', 'C15'], self_type=PPD_SH, top_level=True,
+               params=dict(bucket=ExtT('str'), key=ExtT('str'), filename=ExtT('str'), extra_args=OptT(ExtT('extra_args')), expected_size=OptT(Int)),
+               checks=ppd_dl_checks, raises={'Exception': only_propagates, 'ValueError': only_propagates})
 
     def ppd_exit_checks(c):
         tr = c.trace
